@@ -412,6 +412,7 @@ func init() {
 		// every eighth vector: bins of more than 12 candidates full of exact ties (few distinct targets, many copies),
 		// where an ordering that is not stable shows
 		crowded := i%8 == 3
+		masked := i%8 == 5 // an N tract of the target over SNP columns of the query: the SNP lists differ by more than the distance
 		if crowded {
 			nq = 1
 			nt = 16 + rng.Intn(24)
@@ -454,6 +455,33 @@ func init() {
 			if rng.Intn(2) == 0 {
 				o["sizetotal"] = 1 + rng.Intn(8)
 			}
+		}
+		if masked {
+			// query: the reference with SNPs at k adjacent sites; every other target: the query with m of them under an N tract
+			k := 4 + rng.Intn(4)
+			a := rng.Intn(w - k)
+			qb := []byte(ref)
+			for j := a; j < a+k; j++ {
+				qb[j] = "ACGT"[(strings.IndexByte("ACGT", qb[j])+1)%4]
+			}
+			qs = []interface{}{symList(string(qb))}
+			for t := range ts {
+				if t%2 == 0 {
+					tb := append([]byte{}, qb...)
+					m := 2 + rng.Intn(k-1)
+					for j := a; j < a+m; j++ {
+						tb[j] = 'N'
+					}
+					if rng.Intn(2) == 0 {
+						x := (a + k + 1 + rng.Intn(3)) % w // one real difference elsewhere
+						tb[x] = "ACGT"[(strings.IndexByte("ACGT", tb[x])+1)%4]
+					}
+					ts[t] = symList(string(tb))
+				}
+			}
+			o["push"], o["sizetotal"], o["sizeup"], o["sizedown"], o["sizeside"], o["sizesame"] = 0, 0, 0, 0, 0, 0
+			o["distall"] = 1 + rng.Intn(2)
+			o["thrnum"], o["thrtarget"], o["ignore"] = 4, 10000, []int{}
 		}
 		if crowded {
 			o["push"], o["sizetotal"], o["sizeup"], o["sizedown"], o["sizeside"], o["sizesame"] = 0, 0, 0, 0, 0, 0
